@@ -33,20 +33,20 @@ var preCommitLabels = []string{"tlog.Add(2)", "tlog.Add(3)", "tlog.Add(4)", "tlo
 var anyLabels = append([]string{"blob.Remove", "reg.Remove", "tlog.Add(12)", "tlog.Add(13)", "tlog.Remove", "plog.Remove", "l2.Delete[node]", "l2.Unlock", "l2.Delete[lock]"}, preCommitLabels...)
 
 type Res struct {
-	Hash        string       `json:"hash"`
-	Profiles    []string     `json:"profiles"`
-	Txns        int          `json:"txns"`
-	Committed   int          `json:"committed"`
-	Failed      int          `json:"failed"`
-	RolledBack  int          `json:"rolled_back"`
-	FaultsFired int          `json:"faults_fired"`
+	Hash         string      `json:"hash"`
+	Profiles     []string    `json:"profiles"`
+	Txns         int         `json:"txns"`
+	Committed    int         `json:"committed"`
+	Failed       int         `json:"failed"`
+	RolledBack   int         `json:"rolled_back"`
+	FaultsFired  int         `json:"faults_fired"`
 	NodeDeleting int         `json:"node_deleting_txns"`
 	Interleaved  int         `json:"interleaved_pairs"`
-	Walk        walk.Report  `json:"walk"`
-	APIProblem  string       `json:"api_problem,omitempty"`
-	ModelDiff   string       `json:"model_diff,omitempty"`
-	Log         []string     `json:"log"`
-	Harness     string       `json:"harness,omitempty"`
+	Walk         walk.Report `json:"walk"`
+	APIProblem   string      `json:"api_problem,omitempty"`
+	ModelDiff    string      `json:"model_diff,omitempty"`
+	Log          []string    `json:"log"`
+	Harness      string      `json:"harness,omitempty"`
 }
 
 func history(i int, seed int64, extra []string) any {
